@@ -1,0 +1,47 @@
+//go:build verif
+
+// Contracts for the deductive verifier in /verif (govc). Comment-only.
+
+package system
+
+// ---- state_tracker.go: the first write on an initializing ledger (C31 C07) ------------------------------------
+// handleState wraps the write in a controller-level transaction: the write runs on the LOCKED child of the BeginTX
+// controller, and it is the BeginTX controller (the one that queued the events) that is committed — or rolled back on
+// error / dry run. The ledger is marked in-use only after that commit succeeded.
+
+//@ ghost nFn int
+//@ ghost lastFnCtrl ledgercontroller.Controller
+
+//@ func withLock(ctx context.Context, ctrl ledgercontroller.Controller, fn func(ctrl ledgercontroller.Controller, conn bun.IDB) error) (err error)
+//@   property C31 C07
+//@   requires ctrl != nil
+//@   modifies lastLockedCtrl, nFn, lastFnCtrl
+//@   ensures nFn <= old(nFn) + 1
+//@   ensures nFn == old(nFn) + 1 ==> lastFnCtrl == lastLockedCtrl
+//@   ensures err == nil ==> nFn == old(nFn) + 1
+//@   fnparam fn(c2, conn) (ferr):
+//@     modifies nFn, lastFnCtrl
+//@     ensures nFn <= old(nFn) + 1 && (nFn == old(nFn) + 1 ==> lastFnCtrl == c2) && (ferr == nil ==> nFn == old(nFn) + 1)
+
+//@ func (c *controllerFacade) handleState(ctx context.Context, dryRun bool, fn func(ctrl ledgercontroller.Controller) error) (err error)
+//@   property C31 C07
+//@   requires c.Controller != nil
+//@   modifies c, nCtrlBegin, lastTxCtrl, nCtrlCommit, lastCommitCtrl, nCtrlRollback, lastLockedCtrl, nFn, lastFnCtrl
+//@   ensures old(c.ledger.State) == "in-use" ==> nCtrlBegin == old(nCtrlBegin) && nCtrlCommit == old(nCtrlCommit) && nFn == old(nFn) + 1 && lastFnCtrl == c.Controller
+//@   ensures old(c.ledger.State) != "in-use" ==> nFn <= old(nFn) + 1 && (nFn == old(nFn) + 1 ==> lastFnCtrl == lastLockedCtrl && nCtrlBegin == old(nCtrlBegin) + 1)
+//@   ensures old(c.ledger.State) != "in-use" && (err != nil || dryRun) ==> nCtrlCommit == old(nCtrlCommit) && c.ledger.State == old(c.ledger.State)
+//@   ensures old(c.ledger.State) != "in-use" && err == nil && !dryRun ==> nCtrlCommit == old(nCtrlCommit) + 1 && lastCommitCtrl == lastTxCtrl && nFn == old(nFn) + 1 && c.ledger.State == "in-use"
+//@   ensures old(c.ledger.State) != "in-use" && nCtrlBegin == old(nCtrlBegin) + 1 ==> nCtrlRollback >= old(nCtrlRollback) + 1 || nCtrlCommit == old(nCtrlCommit) + 1
+//@   fnparam fn(c2) (ferr):
+//@     modifies nFn, lastFnCtrl
+//@     ensures nFn == old(nFn) + 1 && lastFnCtrl == c2
+//@   lit 2 (lerr):
+//@     property C31 C07
+//@     modifies nFn, lastFnCtrl
+//@     ensures nFn <= old(nFn) + 1 && (nFn == old(nFn) + 1 ==> lastFnCtrl == ctrl) && (lerr == nil ==> nFn == old(nFn) + 1)
+//@     ensures nCtrlCommit == old(nCtrlCommit)
+//@     fnparam fn(c2) (ferr):
+//@       modifies nFn, lastFnCtrl
+//@       ensures nFn == old(nFn) + 1 && lastFnCtrl == c2
+//@     note this is the function handed to withLock: its contract is, clause by clause, the fnparam contract withLock assumes of its argument (the refinement is by identical text, not checked mechanically); it commits nothing itself
+//@   end
